@@ -357,7 +357,7 @@ def run_native_unit(uname, ucfg, tier, scratch):
     searched = [l for l in text.splitlines() if l.startswith("searched ")]
     ran = re.search(r"test result: (ok|FAILED)\. (\d+) passed; (\d+) failed", text)
     n_cases = sum(int(x) for l in searched for x in re.findall(r"\b(\d+)\b", l)[:1])
-    if not ran or not searched or n_cases == 0:
+    if (not ran or not searched or n_cases == 0) and not found:
         # compile error (API changed) or the enumeration did not report its size: vacuity guard
         out["status"] = "undecided"
         out["reason"] = "native enumeration did not run to completion: " + text[-600:]
